@@ -147,21 +147,21 @@ pub fn hash_bytes(data: &[u8]) -> u64 {
 }
 
 #[derive(Default)]
-struct Stats {
-    evaluations: u64,
-    nontrivial: u64,
-    distinct: BTreeSet<u64>,
-    labels: BTreeMap<String, u64>,
-    counters: BTreeMap<String, u64>,
-    excluded_known: u64,
-    known_hits: BTreeMap<String, u64>,
-    inconclusive: u64,
-    samples: Vec<Value>,
-    nontrivial_samples: Vec<Value>,
+pub struct Stats {
+    pub evaluations: u64,
+    pub nontrivial: u64,
+    pub distinct: BTreeSet<u64>,
+    pub labels: BTreeMap<String, u64>,
+    pub counters: BTreeMap<String, u64>,
+    pub excluded_known: u64,
+    pub known_hits: BTreeMap<String, u64>,
+    pub inconclusive: u64,
+    pub samples: Vec<Value>,
+    pub nontrivial_samples: Vec<Value>,
 }
 
 impl Stats {
-    fn absorb(&mut self, r: &CaseReport) {
+    pub fn absorb(&mut self, r: &CaseReport) {
         self.evaluations += 1;
         if r.nontrivial {
             self.nontrivial += 1;
@@ -188,7 +188,7 @@ impl Stats {
         }
     }
 
-    fn merge(&mut self, o: Stats) {
+    pub fn merge(&mut self, o: Stats) {
         self.evaluations += o.evaluations;
         self.nontrivial += o.nontrivial;
         self.distinct.extend(o.distinct);
@@ -228,7 +228,7 @@ pub struct RunOptions {
 }
 
 /// Splits violations into (unknown, known-entry-signatures)
-fn classify(violations: &[Violation], known: &[KnownFinding]) -> (Vec<Violation>, Vec<String>) {
+pub fn classify(violations: &[Violation], known: &[KnownFinding]) -> (Vec<Violation>, Vec<String>) {
     let mut unknown = Vec::new();
     let mut hits = Vec::new();
     for v in violations {
@@ -241,7 +241,7 @@ fn classify(violations: &[Violation], known: &[KnownFinding]) -> (Vec<Violation>
     (unknown, hits)
 }
 
-fn write_replay<C: Serialize>(root: &str, id: &str, tier: Tier, seed: u64, case: &C, violations: &[Violation], note: &str) -> String {
+pub fn write_replay<C: Serialize>(root: &str, id: &str, tier: Tier, seed: u64, case: &C, violations: &[Violation], note: &str) -> String {
     let case_json = serde_json::to_value(case).unwrap_or(Value::Null);
     let text = serde_json::to_string(&case_json).unwrap_or_default();
     let h = hash_str(&text);
